@@ -150,8 +150,23 @@ claim(
     "DESIGN.md §7 C06",
 )
 
+claim(
+    "C10",
+    "Lean 4 proof (canonical-form theorem for applicable pass sequences; legality preserved by every pass; flags = passes) + pipeline table regenerated from the Python ASTs + differential correspondence over random pass sequences",
+    "Theorems C10_canonical, C10_commute_meaning, C10_commute_perm, the six pairwise C10_comm_* lemmas, C10_idempotent_macros / _subs / _meaning, C10_flags(_ok), C10_legal_preserved, C10_applicable_of_legal prove that any orders and repetitions of an applicable sequence of the four passes give the same meaning (with 'applicable' made precise: every intermediate circuit legal, and alias fill-in not baking in a let that the overrides in force change; subcircuit expansion acts through the semantic map spellSem), that expanding macros or subcircuits twice returns the same circuit and every pass applied twice means what it means once, that every pass preserves legality (both well-formedness predicates and the deep register-chain invariant), and that the parser's expand flags are exactly the passes applied to the plain parse. The pass orders of parse_jaqal_string / run_jaqal_circuit / parse_jaqal_output_list are read out of the Python ASTs on every run and compared with the model's table.",
+    COMMON_NOTE + "Named propositions, not proved: syntactic idempotence of the two rebuilding passes (C10_idempotent_let_full / _map_full) and the text-level legality statement (C10_legal_text_partial has C01's round trip as hypothesis); both are covered by direct oracles (idempotent, legal_after_pass). One open known finding (defaulted-stop-frozen, see C05) can surface under overrides.",
+    "DESIGN.md §7 C10",
+)
+claim(
+    "C16",
+    "Lean 4 proof (totality and error-class theorems for parse + build on every text; class lemmas for every later stage; model purity) + direct oracles on the real entry points over hostile inputs, call histories and fresh subprocesses",
+    "C16_parse_build_total proves, for EVERY character string and configuration, that parsing and building fail only with JaqalParseError / JaqalError / ImportError — never another exception class, never non-termination (no fuel exhaustion); C16_pos_parse that a parse error's position is a token start of the text, the offset where lexing fails, or EOF; C05_total_class, C09_total_class, C04_total_class and the execution-stage class lemmas (discovery, disjointness, resolution, serialisation, C08_terminates) do the same for each later stage on typed circuits, and C16_total_partial composes them for the whole run under two named structural hypotheses that are checked on every generated program; C16_deterministic / C16_history_perm / C16_history_interleave state purity of the model. The rest of the property lives in the Python process and is checked by direct oracles: only JaqalError / ImportError over valid programs, token and character damage, every prefix, deep nesting, huge literals, missing and clashing pulse modules, no / two registers; error positions; termination under an alarm; outcome independent of call history in one process and equal to a fresh interpreter's.",
+    COMMON_NOTE + "CPython's recursion limit, memory exhaustion and numpy's sampler are runtime behaviour outside the model (converted to JaqalError at the entry points; tested). The two remaining hypotheses of C16_total_partial (the built circuit is WellFormed; the expanded circuit is flat-typed) are stated in Props/C16.lean with the missing lemmas named.",
+    "DESIGN.md §7 C16",
+)
+
 ALL = [f"C{n:02d}" for n in range(1, 21)]
-READY = {"C02", "C03", "C04", "C05", "C06", "C07", "C08", "C09", "C11", "C12", "C13", "C14", "C15", "C17", "C18", "C19", "C20"}  # checks that are built, pass on the unchanged tree and are registered
+READY = {"C02", "C03", "C04", "C05", "C06", "C07", "C10", "C16", "C08", "C09", "C11", "C12", "C13", "C14", "C15", "C17", "C18", "C19", "C20"}  # checks that are built, pass on the unchanged tree and are registered
 
 
 def main():
